@@ -1,0 +1,13 @@
+//go:build verif
+
+package components
+
+import "github.com/preslavrachev/gomjml/mjml/options"
+
+// Verification hooks. Compiled only with -tags verif; add-only.
+
+// VerifApplyInlineStylesToHTML exposes the author-HTML inliner.
+func VerifApplyInlineStylesToHTML(html string, styles map[string][]options.InlineStyle) string {
+	bc := &BaseComponent{RenderOpts: &options.RenderOpts{InlineClassStyles: styles}}
+	return bc.ApplyInlineStylesToHTMLContent(html)
+}
